@@ -11,7 +11,7 @@ TRUSTED_COMMON = [
 PROPS = {
     "C11": {
         "lean": ["OlricModel.Props.C11"],
-        "streams": [("kv", (40, 300), (600, 400))],
+        "streams": [("kv", (40, 300), (600, 400)), ("churn", (3, 300), (20, 1000))],
         "model": True,
         "level_text": "Refinement theorem (C11_refines): for every operation sequence of the store model, of any length and with any sizes, every answer is that of a plain map, compaction never changes contents, Put never loops; repeated Compaction answers done within 2*records + tables + 3 calls for every iteration order (C11_compaction_terminates, by a measure that every not-done call strictly lowers); plus transfer (export/import LWW) and count/iteration theorems. The model is tied to internal/kvstore by lock-step execution with full state dumps on generated sequences.",
         "design_ref": "DESIGN.md §6 C11",
@@ -130,7 +130,7 @@ PROPS["C04"] = {
 }
 PROPS["C05"] = {
     "lean": ["OlricModel.Props.C05"],
-    "streams": [("quorum", (25, 0), (400, 0)), ("cluster", (6, 150), (60, 400))],
+    "streams": [("quorum", (25, 0), (400, 0)), ("cluster", (6, 150), (60, 400)), ("failover", (6, 30), (40, 40))],
     "model": True,
     "level_text": "Theorems for all configurations and all subsets of unreachable backup owners: a Put is acknowledged iff stored copies >= WriteQuorum and fails with exactly the write-quorum error otherwise (C05_write_iff), the counted copies are really stored; a Get returns a value only with >= ReadQuorum copies obtained, read-quorum error when too few members answer or too few hold the key, not-found when no answering member holds it (C05_read); below MemberCountQuorum the guarded handler does not run (C05_member_quorum) — with the guard's shape extracted from server/handler.go, olric.go and dmap.go on every run. Tied to the code by the quorum stream (listeners really closed, member count really faked).",
     "design_ref": "DESIGN.md §6 C05",
@@ -139,7 +139,7 @@ PROPS["C05"] = {
 }
 PROPS["C06"] = {
     "lean": ["OlricModel.Props.C06"],
-    "streams": [("repair", (14, 60), (200, 150)), ("cluster", (4, 150), (40, 400)), ("rrfail", (6, 0), (40, 0))],
+    "streams": [("repair", (14, 60), (200, 150)), ("cluster", (4, 150), (40, 400)), ("rrfail", (10, 0), (40, 0))],
     "model": True,
     "level_text": "Theorems for every set of gathered versions (owner, previous owners, backup owners; arbitrary timestamps, ties, missing and expired copies): the sorted version list is descending and its head carries the maximum timestamp of all live copies, so a successful Get returns a copy with the newest timestamp, which is one of the stored copies (C06_read_newest, C06_winner_is_a_copy, C06_get_returns_newest); merging received tables onto a fragment leaves, for every key, the maximum timestamp of everything delivered, for every arrival order and every repetition (C06_merge_lww, C06_merge_idempotent, C06_mergeEntries; the store-level callback is KV.lww of C11_transfer: C06_store_merge_is_lww); with read-repair on, one Get leaves the owner's copy and every backup owner's copy with the winner's timestamp (C06_read_repair). Tied to the code by the repair stream: copies planted in the fragments, hand-overs delivered through the real DMAP.MOVEFRAGMENT handler, reads through every path, copies read back after every step.",
     "design_ref": "DESIGN.md §6 C06",
@@ -149,7 +149,7 @@ PROPS["C06"] = {
 }
 PROPS["C07"] = {
     "lean": ["OlricModel.Props.C07"],
-    "streams": [("atomics", (12, 60), (150, 200)), ("cluster", (4, 150), (30, 400))],
+    "streams": [("atomics", (12, 60), (150, 200)), ("cluster", (4, 150), (30, 400)), ("failover", (5, 30), (30, 40))],
     "model": True,
     "level_text": "Theorems: (A) a micro-step model of n concurrent read-modify-write callers (take the executing member's named mutex, read, write, release), for EVERY schedule of the micro-steps: when all callers execute on one member the writes form a serial execution in which each caller read exactly what the callers before it left, nobody is lost or duplicated (C07_serializable); for counters the final value is the initial value plus the sum of all deltas (C07_no_lost_update), for GetPut the returned values form one chain (C07_getput_chain); the statement is false with callers on two members (witness by decide). (B) in a stable healthy cluster the model's incr / getPut are the abstract counter / register step, acknowledged and mirrored, the expiry kept, and the stored decimal number round-trips so that sequences add up (incr_refines, getPut_refines, parseIntB_intBytes, C07_counter_sums). (C) that every call executes on the partition owner is extracted from the source on every run (facts_tie). Tied to the code by the atomics stream: all entry points, a second caller started inside the first one's read-modify-write window at a yield point of the harness build, and real concurrent races through all members and client kinds.",
     "design_ref": "DESIGN.md §6 C07",
